@@ -61,6 +61,11 @@ CHECKS = {
    note="Trusted: LLVM 14 tools (their verifier rules are not modelled); translator; Coq kernel. Print Assumptions: closed.",
    technique="independent LLVM tools on all emitted IR + Coq proof over translator-generated linkage/calling-convention table + correspondence of define/declare lines",
    design="5/C03"),
+ "C14": dict(
+   text="Machine-checked proofs (Coq) on faithful executable models of both lexers: first generation — for every source (LF, CRLF, bare CR, non-ASCII) each token's span is exactly the character range of its text on the right line and column; decimal/hex/binary digit strings denote their mathematical value or E140 from 2^128 on, with suffixes giving the suffix type or E141; string and character escapes decode to exactly their bytes; inserting blanks or comments between tokens does not change the tokens; second generation — totality, exact byte spans and line numbers, value theorems, token-buffer bounds (shared with C15). The tie is unusually strong: both real lexers and both extracted models are compared on ALL strings up to length 3 (quick) / 4 (thorough) over a 48-character alphabet (token kinds, values, suffix types, spans, lines, columns, error codes), on generated token sequences against the generator's own token list with exact spans, and the second generation on arbitrary bytes. The two lexers are compared with each other on the same inputs; they agree except on six classes of input that are listed findings (K1-K6), each classified by the shape of the divergence. A Coq theorem that the two MODELS agree outside these classes is in progress (partial).",
+   note="Trusted: Coq kernel; hand models Model/LexAlpha.v, Model/LexDelta.v (validated on millions of inputs by their authors and on the exhaustive scope at every run); UTF-8 decoding glue in the driver. Fixed: D4 (decimal overflow), D8 (CRLF offsets). Known findings K1-K6. Print Assumptions: closed.",
+   technique="Coq proofs on executable lexer models (spans, values, escapes, layout invariance) + exhaustive small-scope differential testing of both implementations against both models and each other",
+   design="5/C14"),
 }
 
 NOT_YET = {
